@@ -77,7 +77,7 @@ P = {
   ref='6 C12'),
  'C13': dict(
   cat='proof', tech='Lean 4 memory bound as corollary of slot conservation + allocation accounting by LD_PRELOAD',
-  text='liveBytes ≤ memBound(n) = n·perWorker for compression and decompression, independent of the input, from the conservation/capacity invariants with slot formulas from Gen; an LD_PRELOAD allocation shim measures peak live bytes and per-site live counts for inputs ×1/×4/×16 (including million-fold bombs) at several worker counts.',
+  text='liveBytes ≤ memBound(n) = n·perWorker for compression and decompression, independent of the input, from the conservation/capacity invariants with slot formulas from Gen; an LD_PRELOAD allocation shim measures peak live bytes and per-site live counts for inputs ×1/×4/×16 (including million-fold bombs) at several worker counts, for compression, -d and -t.',
   note=TB + 'Partial: RSS vs live bytes slack is measured; allocation sizes are parameters of the theorem (the check evaluates the bound with measured sizes).',
   ref='6 C13'),
  'C14': dict(
@@ -97,7 +97,7 @@ P = {
   ref='6 C16'),
  'C17': dict(
   cat='proof', tech='Lean 4 theorems over the translated suffix table and masks + full-grid file-system campaign',
-  text='no_clobber, skip rules, naming rules and metadata theorems over Gen.suffixTable / masks; the grid mode × flags × operand kind × pre-existing output × suffixes × modes/timestamps is executed and compared with the model.',
+  text='no_clobber, skip rules, naming rules and metadata theorems over Gen.suffixTable / masks; the grid mode × flags × operand kind × pre-existing output × suffixes × modes/timestamps is executed and compared with the model; skipped operands are re-run with an unusable stderr (descriptor 2 closed, /dev/full) and must leave the directory untouched.',
   note=TB + 'input_init/output_init are hand-modelled; tie = the grid campaign.',
   ref='6 C17'),
  'C18': dict(
